@@ -250,12 +250,9 @@ def runActions (s : Store) (t : Txn) (acts : List String) : Option (Txn × List 
       | _ => none
     | ["key", h] =>
       match s.pk, unhex h with
-      | some pk, some bs =>
-        -- rwKey.Set: refused when the key already resolves
-        let t := t.bufferFor pk
-        match s.findCol pk with
-        | some kc => if kc.seek.contains bs then some (t, outs ++ ["dup"]) else some (t.putOp pk ⟨opPut, t.cursor, .str bs⟩, outs ++ ["set"])
-        | none => none
+      | some _, some bs =>
+        let (t', ok) := t.setKey s bs
+        some (t', outs ++ [if ok then "set" else "dup"])
       | _, _ => none
     | ["get", col] =>
       match s.findCol col with
@@ -461,13 +458,15 @@ def stepColl (st : St) (cid : String) (c : Coll) (toks : List String) : St × St
       | "insert" =>
         let (acts, fail) := splitActions rest
         if s.pk.isSome then (st, "err:unkeyed") else
-        let (s1, t1, idx) := t.reserve s
-        match runActions s1 t1 acts with
+        -- validate first: a malformed line changes nothing
+        match runActions s t acts with
         | none => (st, "bad-op")
-        | some (t2, outs) =>
-          if fail then
-            fin { (c.setTxn tid t2) with store := s1.free idx } (s!"off={idx} err")
-          else fin { (c.setTxn tid t2) with store := s1 } (s!"off={idx}" ++ (if outs.isEmpty then "" else " " ++ joinSp outs))
+        | some _ =>
+          let body := fun (s1 : Store) (t1 : Txn) => ((runActions s1 t1 acts).map (·.1)).getD t1
+          let (s2, t2, idx) := t.insert s body fail
+          let outs := ((runActions s { t with cursor := idx } acts).map (·.2)).getD []
+          if fail then fin { (c.setTxn tid t2) with store := s2 } (s!"off={idx} err")
+          else fin { (c.setTxn tid t2) with store := s2 } (s!"off={idx}" ++ (if outs.isEmpty then "" else " " ++ joinSp outs))
       | "at" =>
         match rest with
         | off :: acts0 =>
@@ -492,41 +491,33 @@ def stepColl (st : St) (cid : String) (c : Coll) (toks : List String) : St × St
         match rest with
         | kh :: acts0 =>
           let (acts, fail) := splitActions acts0
-          match unhex kh, s.pk with
-          | some key, some pk =>
-            match s.findCol pk with
-            | none => (st, "bad-op")
-            | some kc =>
-              match kc.seek.get? key with
-              | some i =>
-                if cmd = "inskey" then (st, "err:exists")
-                else
-                  match runActions s { t with cursor := i } acts with
-                  | none => (st, "bad-op")
-                  | some (t2, outs) => (st.setColl cid (c.setTxn tid t2), s!"at={i} " ++ showOuts outs ++ (if fail then " err" else ""))
-              | none =>
-                if cmd = "qkey" then (st, "err:notfound")
-                else
-                  let (s1, t1, idx) := t.reserve s
-                  match runActions s1 t1 acts with
-                  | none => (st, "bad-op")
-                  | some (t2, _) =>
-                    let s2 := if fail then s1.free idx else s1
-                    let t3 := t2.putOp pk ⟨opPut, idx, .str key⟩
-                    fin { (c.setTxn tid t3) with store := s2 } (s!"off={idx}" ++ (if fail then " err" else ""))
-          | some _, none => (st, "err:nokey")
-          | none, _ => (st, "bad-op")
+          match unhex kh, runActions s t acts with
+          | some key, some _ =>
+            let body := fun (s1 : Store) (t1 : Txn) => ((runActions s1 t1 acts).map (·.1)).getD t1
+            let (s2, t2, res) := t.keyOp s cmd key body fail
+            match res with
+            | .noKey => (st, "err:nokey")
+            | .notFound => (st, "err:notfound")
+            | .existsAt i =>
+              if cmd = "inskey" then (st, "err:exists")
+              else
+                let outs := ((runActions s { t with cursor := i } acts).map (·.2)).getD []
+                (st.setColl cid (c.setTxn tid t2), s!"at={i} " ++ showOuts outs ++ (if fail then " err" else ""))
+            | .inserted idx =>
+              fin { (c.setTxn tid t2) with store := s2 } (s!"off={idx}" ++ (if fail then " err" else ""))
+          | _, _ => (st, "bad-op")
         | [] => (st, "bad-op")
       | "delkey" =>
         match rest with
         | [kh] =>
-          match unhex kh, s.pk with
-          | some key, some pk =>
-            match (s.findCol pk).bind (fun kc => kc.seek.get? key) with
-            | some i => (st.setColl cid (c.setTxn tid (t.putOp rowColumn ⟨opDelete, i, .fixed 0 []⟩)), "ok")
-            | none => (st, "err:notfound")
-          | some _, none => (st, "err:nokey")
-          | none, _ => (st, "bad-op")
+          match unhex kh with
+          | some key =>
+            let (t2, res) := t.deleteKey s key
+            match res with
+            | .existsAt _ => (st.setColl cid (c.setTxn tid t2), "ok")
+            | .noKey => (st, "err:nokey")
+            | _ => (st, "err:notfound")
+          | none => (st, "bad-op")
         | _ => (st, "bad-op")
       | "select" =>
         let filters := rest.takeWhile (· ≠ "=>")
